@@ -2,6 +2,7 @@ SPECIFICATION Spec
 CONSTANTS
   Universe <- U4
   Absent <- A2
+  StopEarly = FALSE
   MaxPresent = 4
 INVARIANT C13
 INVARIANT Bounded
